@@ -41,7 +41,7 @@ def run(chk):
                     continue
                 af = I.exact_aff(x.st, x.val) if isinstance(x.val, BV) else None
                 want = Aff({('a', k, 64): 1 << k}, 1 << k) if k < 64 else None
-                if k > 0 and af is not None and af.norm(64) == want.norm(64) and 'rounded' not in seen:
+                if k > 0 and af is not None and (af.norm(64) == want.norm(64) or I.aff_equal(x.st, af, want)) and 'rounded' not in seen:
                     # this path must be the "not aligned" one: the aligned test was false
                     seen.add('rounded')
                     continue
@@ -49,7 +49,11 @@ def run(chk):
             want_seen = {'aligned'} if k == 0 else {'aligned', 'rounded'}
             chk.ob('align-up', 'align_up(a, 2^%d): a when aligned, else (a >> %d + 1) << %d' % (k, k, k), ok and seen == want_seen, 'paths %r' % (o,), fn_site(I, 'addr::align_up'),
                    sample=[repr(x.val) for x in rets] if k == 12 else None)
-            okp = all(any('checked_add overflows' == n[0] and n[1] == 1 for n in x.st.notes) for x in pans) and len(pans) == (1 if k > 0 else 0)
+            # a panic path is one on which the rounded value 2^64 does not exist: bits k..63 of the input are all ones (however the code
+            # finds that out: checked_add overflowing, a comparison with u64::MAX, ...) and the input is not aligned
+            def all_ones_above(x):
+                return all(x.st.env.get(('a', i)) == 1 for i in range(k, 64)) or any('checked_add overflows' == n[0] and n[1] == 1 for n in x.st.notes)
+            okp = all(all_ones_above(x) for x in pans) and (len(pans) >= 1 if k > 0 else not pans)
             chk.ob('align-up', 'align_up(a, 2^%d) panics exactly when the rounded value does not fit in 64 bits' % k, okp, 'panic paths %r' % ([x.st.notes for x in pans],), fn_site(I, 'addr::align_up'))
         # non powers of two: the assertion dominates every use
         for fn_ in ('addr::align_down', 'addr::align_up'):
@@ -74,8 +78,8 @@ def run(chk):
             for k in range(0, vb):
                 al = BV.const(64, 1 << k)
                 # align_down
-                fn_ = T + '::align_down_u64'
-                o = r1(fn_, [val, al])
+                fn_ = T + '::align_down'
+                o = r1(fn_, [val, al], {'U': U64})
                 if T == VA:
                     want = BV(64, [0] * k + sl(sym, k, 48) + [lit(sym, 47)] * 16)
                 else:
@@ -83,19 +87,10 @@ def run(chk):
                 chk.ob('typed-align', '%s::align_down(2^%d) = greatest multiple not above, still valid' % (T.split('::')[-1], k), len(o) == 1 and o[0].kind == 'ret' and same(inner(o[0].val), want),
                        'paths %r' % (o,), fn_site(I, fn_))
                 # is_aligned
-                fn_ = T + '::is_aligned_u64'
-                o = r1(fn_, [val, al])
+                fn_ = T + '::is_aligned'
+                o = r1(fn_, [val, al], {'U': U64})
                 wantb = BV(1, [eq0_bit(tuple(inner(val).bits[:k]))])
                 chk.ob('typed-align', '%s::is_aligned(2^%d) <=> low %d bits are zero' % (T.split('::')[-1], k, k), len(o) == 1 and o[0].kind == 'ret' and same(o[0].val, wantb), 'paths %r' % (o,), fn_site(I, fn_))
-            # generic entry points forward to the _u64 forms with align.into()
-            for meth in ('align_down', 'is_aligned'):
-                fn_ = '%s::%s' % (T, meth)
-                o = r1(fn_, [val, BV.const(64, 4096)], {'U': U64})
-                ok = len(o) == 1 and o[0].kind == 'ret'
-                if ok:
-                    c = calls(o[0], '%s::%s_u64' % (T, meth))
-                    ok = len(c) == 1 and same(c[0][2][0], val) and same(c[0][2][1], BV.const(64, 4096)) and same(o[0].val, ret_of(o[0], c[0][5]))
-                chk.ob('typed-align', '%s::%s<U> = %s_u64(self, align.into())' % (T.split('::')[-1], meth, meth), ok, 'paths %r' % (o,), fn_site(I, fn_))
             # align_up = constructor(raw align_up(self.0, align))
             ctor = VA + '::new_truncate' if T == VA else PA + '::new'
             fn_ = T + '::align_up'
@@ -110,13 +105,16 @@ def run(chk):
                         r1v = ret_of(x, c1[0][5]) if okx else None
                         okx = okx and len(c2) == 1 and r1v is not None and same_or_refined(x, c2[0][2][0], r1v) and same(x.val, ret_of(x, c2[0][5]))
                     elif T == VA:
-                        # the truncating constructor never panics: the only panic is the raw function's 64-bit overflow
-                        okx = okx and any('checked_add overflows' == n[0] and n[1] == 1 for n in x.st.notes)
+                        # the truncating constructor never panics: the only panic is the raw function's 64-bit overflow (all address bits
+                        # from the alignment upwards are ones)
+                        vb = inner(val).bits
+                        okx = okx and (any('checked_add overflows' == n[0] and n[1] == 1 for n in x.st.notes) or
+                                       all((b == 1) or (isinstance(b, tuple) and b[0] == 'v' and x.st.env.get((b[1], b[2])) == (0 if b[3] else 1)) for b in vb[k:]))
                     ok = ok and okx
                 chk.ob('typed-align', '%s::align_up(2^%d) = %s(align_up(self.0, align)) on every path' % (T.split('::')[-1], k, ctor.split('::')[-1]), ok, 'paths %r' % (o,), fn_site(I, fn_))
             # any alignment: the typed forms return only for powers of two (where the obligations above decide the value)
             # and panic otherwise - is_aligned included, so it can never answer for a non-power-of-two alignment
-            for fn_, sub in ((T + '::align_down_u64', None), (T + '::is_aligned_u64', None), (T + '::align_up', {'U': U64})):
+            for fn_, sub in ((T + '::align_down', {'U': U64}), (T + '::is_aligned', {'U': U64}), (T + '::align_up', {'U': U64})):
                 o = r1(fn_, [val, BV.sym(64, 'al')], sub)
                 pow2 = lambda x, tv: any(isinstance(kf, tuple) and len(kf) == 3 and kf[1] == 'pow2' and v2 == tv for kf, v2 in x.st.facts.items())
                 okr = bool(o) and all(pow2(x, 1) for x in o if x.kind == 'ret')
